@@ -22,6 +22,12 @@ fn spaces(tier: Tier) -> Vec<Space> {
             Space { alpha: "SAME", depth: 3 },
             Space { alpha: "SELFX", depth: 2 },
             Space { alpha: "SELFX", depth: 3 },
+            Space { alpha: "CASC", depth: 2 },
+            Space { alpha: "CASC", depth: 3 },
+            Space { alpha: "QSYM", depth: 3 },
+            Space { alpha: "QSYM", depth: 4 },
+            Space { alpha: "CROSS", depth: 3 },
+            Space { alpha: "CROSS", depth: 4 },
             Space { alpha: "A1", depth: 2 },
             Space { alpha: "CORE", depth: 3 },
         ],
@@ -40,12 +46,19 @@ fn spaces(tier: Tier) -> Vec<Space> {
             Space { alpha: "SAME", depth: 3 },
             Space { alpha: "SELFX", depth: 2 },
             Space { alpha: "SELFX", depth: 3 },
+            Space { alpha: "CASC", depth: 2 },
+            Space { alpha: "CASC", depth: 3 },
+            Space { alpha: "QSYM", depth: 3 },
+            Space { alpha: "QSYM", depth: 4 },
+            Space { alpha: "CROSS", depth: 3 },
+            Space { alpha: "CROSS", depth: 4 },
             Space { alpha: "CORE", depth: 3 },
             Space { alpha: "A0", depth: 3 },
             Space { alpha: "MICRO", depth: 4 },
             Space { alpha: "SHARE", depth: 4 },
             Space { alpha: "SAME", depth: 4 },
             Space { alpha: "SELFX", depth: 4 },
+            Space { alpha: "CASC", depth: 4 },
             Space { alpha: "A2", depth: 2 },
             Space { alpha: "CORE", depth: 4 },
         ],
@@ -89,11 +102,15 @@ impl Prop for OrderProp {
         if vs.len() >= 6 {
             out.goals |= 1;
         }
+        // the small segments are run a second time with the min-size analysis attached (all orders again)
+        let segname = &segs[seg].seg.name;
+        let with_analysis = ["MICRO", "SAME", "SHARE", "SELFX", "CASC"].iter().any(|a| segname.starts_with(a)) && !segname.ends_with("^4");
+        let passes: Vec<bool> = if with_analysis { vec![false, true] } else { vec![false] };
         let mut first: Option<(Vec<Op>, Obs)> = None;
-        for hist in vs {
+        for (hist, ana) in passes.into_iter().flat_map(|a| vs.clone().into_iter().map(move |h| (h, a))) {
             let h2 = hist.clone();
             let q2 = q.clone();
-            let r = fresh_thread(move || run_and_observe(&h2, &q2, Naming::Numeric).0);
+            let r = fresh_thread(move || if ana { run_and_observe_n::<crate::props::equiv::MinSize>(&h2, &q2, Naming::Numeric) } else { run_and_observe(&h2, &q2, Naming::Numeric).0 });
             out.traces += 1;
             out.transitions += hist.len() as u64;
             let obs = match r {
@@ -156,7 +173,10 @@ impl Prop for OrderProp {
                             }
                         }
                         let a = h0.iter().map(|o| o.show()).collect::<Vec<_>>().join(" ; ");
-                        let b = hist.iter().map(|o| o.show()).collect::<Vec<_>>().join(" ; ");
+                        let mut b = hist.iter().map(|o| o.show()).collect::<Vec<_>>().join(" ; ");
+                        if ana {
+                            b += " ; [e-graph with the min-size analysis attached: the analysis must not change any of these answers]";
+                        }
                         out.fail("order-dependent", format!("{{{}}}: {}", ops_strings(&ops).join(" ; "), what.first().cloned().unwrap_or_default()), format!("order A: [{a}]  order B: [{b}]  differences: {}", what.join(" | ")), &ops_strings(&ops));
                     }
                 }
